@@ -1,0 +1,13 @@
+//go:build verif
+
+package tracing
+
+/*@
+func New(spec *Spec) (t *Tracer, err error)
+  trusted
+  flag allocates
+  ensures err == nil ==> t != nil
+
+func (t *Tracer) Close() (err error)
+  trusted
+@*/
